@@ -45,14 +45,20 @@ TIMEOUT = 10.0
 # tolerance / exclusion below (look for known('<id>')); deleting an entry re-arms the strict oracle for it.
 KNOWN = [
     dict(id='malformed-params',
+         input='after initialize / initialized: {"jsonrpc": "2.0", "id": 2, "method": "textDocument/hover", "params": {"textDocument": {"uri": "file:///tmp/a.ucg"}, "position": {"line": -1, "character": 0}}}',
+         observed='no response to id 2; stderr `lsp server error: Invalid request ... invalid value: integer `-1`, expected u32`; the server exits with status 1',
          clause='(a)+(b): the server keeps running and answers every request',
          what='a request (or notification) whose params do not deserialize into the lsp_types struct makes main_loop return the serde '
               'error: no response is written, the process prints "lsp server error: Invalid request" and exits with status 1',
-         replay='after initialize/initialized send exactly: Content-Length: 133\\r\\n\\r\\n{"jsonrpc":"2.0","id":2,"method":"textDocument/hover",'
-                '"params":{"textDocument":{"uri":"file:///tmp/a.ucg"},"position":{"line":-1,"character":0}}}  (also: line 4294967296, line 1.5, '
-                'no position member, uri "not a uri", params null, workspace/symbol without query, didOpen without text)',
+         replay='to the stdin of `ucg lsp`: Content-Length: 128\\r\\n\\r\\n{"jsonrpc": "2.0", "id": 1, "method": "initialize", "params": {"processId": null, "rootUri": '
+                '"file:///tmp", "capabilities": {}}}Content-Length: 57\\r\\n\\r\\n{"jsonrpc": "2.0", "method": "initialized", "params": {}}Content-Length: 159\\r\\n\\r\\n{"jsonrpc": "2.0", '
+                '"id": 2, "method": "textDocument/hover", "params": {"textDocument": {"uri": "file:///tmp/a.ucg"}, "position": {"line": -1, "character": 0}}} -> only the initialize '
+                'response is written, stderr "invalid value: integer `-1`, expected u32", exit status 1 (also: line 4294967296, line 1.5, no position member, uri "not a uri", params '
+                'null, workspace/symbol without query, didOpen without text: the list MALFORMED below)',
          excluded='the whole family MALFORMED of standin_lsp_excluded'),
     dict(id='deep-nesting-stack-overflow',
+         input='didOpen with text `let x = ` followed by 400 `(`',
+         observed="`thread 'main' has overflowed its stack`, SIGABRT (status 134); 200 `(` survive",
          clause='(a): the server keeps running on any document text',
          what='the recursive-descent parser has no depth limit: a didOpen / didChange whose text nests deeply overflows the main thread\'s '
               'stack, the server aborts (SIGABRT, status 134).  `ucg build` and ucglib::parse::parse die in the same way on the same texts',
@@ -60,6 +66,8 @@ KNOWN = [
                 '400 nested `[`, 800 * `not `, 3200 * `1 + ` (debug build, 8 MiB stack; 200 / 100 / 200 / 400 / 1600 survive)',
          excluded='family DEEP of standin_lsp_excluded; every other family keeps the nesting depth <= 64'),
     dict(id='unsaved-import-leaks',
+         input='disk: lib.ucg = `let v = 1;`; didOpen lib.ucg with `let v = "s";`, then didOpen a.ucg with `let l = import "lib.ucg";\\nlet y = l.v + 1;`',
+         observed='a.ucg gets [1:14-1:15 "Expected str but got int"]; a fresh server opened on a.ucg publishes []',
          clause='(d): diagnostics are a function of the document\'s current text and the files on disk',
          what='the diagnostics of a document that imports ANOTHER OPEN document are computed from that document\'s unsaved editor text, '
               'and they are not republished when the imported document changes or closes',
@@ -67,26 +75,34 @@ KNOWN = [
                 'l.v + 1;` -> a.ucg gets "Expected str but got int" at 1:14; a fresh server opened on a.ucg alone publishes []',
          excluded='scenario CROSSDOC of standin_lsp_excluded; generated session documents never import another session document'),
     dict(id='diag-range-one-past-eof',
+         input='didOpen with text `let x = ` (one line of 8 characters)',
+         observed='diagnostic range 0:8-0:9',
          clause='(c): every range lies inside the document',
          what='a diagnostic positioned at the end of input gets the one-character range [EOF, EOF+1): its end is one character beyond the '
               'last line',
          replay='didOpen with text `let x = ` (8 bytes): diagnostic range 0:8-0:9, the only line has 8 characters',
          excluded='tolerated: a diagnostic range whose start is the very end of the text and whose end is start + 1 character'),
     dict(id='semantic-token-spans-lines',
+         input='didOpen with text `let m = "multi\\nline\\nstring"; let q = m;`, textDocument/semanticTokens/full',
+         observed="the string's token: line 0, character 8, length 17; line 0 has 14 characters",
          clause='(c): every range lies inside the document',
          what='the semantic token of a string literal that contains line breaks gets the byte length of the whole literal, so it ends far '
               'beyond the end of its line',
          replay='integration_tests/include_test.ucg: token at line 4 character 19 has length 35, line 4 has 39 characters',
          excluded='tolerated: a semantic token whose byte extent start .. start+length stays inside the document and contains a line break'),
     dict(id='byte-columns',
+         input='didOpen with text `let s = "日本語"; let t = ;`',
+         observed='diagnostic 0:29-0:30; the line has 24 UTF-16 units, the `;` the parser points at (byte column 30) is unit 23',
          clause='(c) and (e): ranges / the position of the syntax diagnostic',
          what='characters are UTF-8 byte columns, the protocol counts UTF-16 units: behind non-ASCII characters every reported column is too '
               'large and can exceed the line',
-         replay='didOpen with text `let s = "日本語" + ;`: parser error at byte column 19 -> diagnostic 0:18-0:19, the line has 17 UTF-16 units '
-                '(the `;` is at unit 16)',
+         replay='didOpen with text `let s = "日本語"; let t = ;` (one line, 24 UTF-16 units, 30 bytes): the parser rejects it at line 1 byte column 30, the '
+                'diagnostic is 0:29-0:30, i.e. behind the end of the line; the position of that `;` is 0:23',
          excluded='tolerated: on a line that contains non-ASCII characters a character up to the line\'s UTF-8 byte length, and the byte column as '
                   'the position of the syntax diagnostic'),
     dict(id='closed-unsaved-doc-stays-indexed',
+         input='didOpen doc1.ucg (no such file) with `\\n\\nlet mem_only = 3;\\n`, didClose doc1.ucg, workspace/symbol ""',
+         observed='symbol mem_only at doc1.ucg 2:4-2:5 although the document is closed and has no file',
          clause='(c): every range lies inside the document (there is no document any more)',
          what='after didClose of a document that does not exist on disk, workspace/symbol still reports the bindings of its last text',
          replay='didOpen doc1.ucg (not on disk) `\\n\\nlet mem_only = 3;\\n`, didClose doc1.ucg, workspace/symbol "" -> mem_only at doc1.ucg 2:4-2:5',
@@ -606,6 +622,7 @@ SPECIALS = [
     ('unterminated string', 'let x = "abc'), ('unterminated escape', 'let x = "a\\'), ('single quotes', "let x = 'a';"), ('double comma', 'let x = {a = 1,, b = 2};'),
     ('valid', 'let x = 1;\nlet y = x + 1;\n'), ('valid no final newline', 'let x = 1;'), ('type error', 'let t = {a = 1};\nlet z = t.a + "s";\n'),
     ('non-ascii string', 'let s = "日本語";\nlet t = s + "é";\nlet u = [s, t];\n'), ('non-ascii then error', 'let s = "日本語" + ;'),
+    ('non-ascii then error behind it', 'let s = "日本語"; let t = ;'),
     ('non-ascii then type error', 'let s = "日本語" + 1;\n'), ('non-ascii name', 'let é = 1;'), ('non-ascii comment', '// ünï 日本 😀\nlet a = 1; // 😀 trailing\nlet b = a;\n'),
     ('astral', 'let e = "😀😀"; let f = e + e;\nlet g = f + ;'), ('multi-line string', 'let m = "multi\nline\nstring"; let q = m;\nlet r = q + m;\n'),
     ('multi-line string non-ascii', 'let m = "é\n日本\n"; let q = m;\n'), ('crlf', 'let x = 1;\r\nlet y = x + 1;\r\n// c\r\nlet z = y;\r\n'),
@@ -1193,6 +1210,7 @@ def standin_lsp_sessions(tier, seed):
     n = 0
     tol = {}
     srv = None
+    pool = ThreadPoolExecutor(max_workers=4)
     try:
         root = make_small_root(base)
         uris = ['file://' + os.path.join(root, 'doc%d.ucg' % i) for i in range(3)]
@@ -1206,8 +1224,6 @@ def standin_lsp_sessions(tier, seed):
         bases = bases or ['let x = 1;\n']
         how0 = '`ucg lsp` started in a directory holding lib/shared.ucg and doc0.ucg (see files), initialize(rootUri = that directory), initialized, then `messages` in order'
         files = {'lib/shared.ucg': LIB_SHARED, 'doc0.ucg': DOC0_DISK}
-        pool = ThreadPoolExecutor(max_workers=4)
-        pending = []          # (session number, uri, text, session diagnostics, future)
         finals = []           # (session number, uri, text, diagnostics)
 
         def history_replay(k):
@@ -1238,7 +1254,6 @@ def standin_lsp_sessions(tier, seed):
             cur = dict(world.open)
             closed_last = dict(world.closed_last)
             views = {}                             # request id -> (open texts, closed_last) at the time of the request
-            first_sent = len(srv.sent)
             for (method, params, info) in msgs:
                 if info in ('open', 'change'):
                     u = params['textDocument']['uri']
@@ -1352,11 +1367,11 @@ def standin_lsp_sessions(tier, seed):
                     return viol(name, bound, n, 'session %d, %s: the diagnostics published last, %s, differ from what a fresh server publishes for the same text, %s'
                                 % (si, os.path.basename(u), show_diags(ds), show_diags(fd or [])), source=src, messages=hist, expected=show_diags(fd or []), observed=show_diags(ds),
                                 how=how0 + '; compare the last publishDiagnostics for the uri with: fresh `ucg lsp` in the same directory, initialize, didOpen(uri, final text)')
-        pool.shutdown(wait=False)
         return dict(name=name, bound=bound, cases=n, status='ok',
                     detail='%d final texts checked (%d against a fresh server, %d rejected by the parser, %d built by the compiler)%s'
                            % (len(finals), len(seen), sum(1 for v in verdicts if v[0] == 'ERR'), sum(built), tol_note(tol)))
     finally:
+        pool.shutdown(wait=True, cancel_futures=True)
         if srv:
             srv.kill()
         for s in list(LIVE):
